@@ -53,7 +53,10 @@ func EnrichRequestWithHeaders(req *http.Request, headers http.Header) {
 					req.Host = values[0]
 				}
 			} else {
-				req.Header[key] = values
+				// The values are shared with the ammo and with every other request built from
+				// it: hand them over without spare capacity, so that appending to the request
+				// header (Header.Add in a middleware) never writes into the shared backing array.
+				req.Header[key] = values[:len(values):len(values)]
 			}
 		}
 	}
